@@ -1326,6 +1326,8 @@ def c5_gives_check(fb, rep):
     n_cmp = 0
     per_switch = {}
     seen_cmp = set()
+    sw_blocks = sorted((bid for bid, blk in f.blocks.items() if (blk.get('term') or {}).get('c') == 'SwitchStmt'), key=lambda b_: f.blocks[b_]['term'].get('ln') or 0)
+    sw_ord = {b_: k_ + 1 for k_, b_ in enumerate(sw_blocks)}
     for bid, blk in f.blocks.items():
         if bid in f.dead:
             continue
@@ -1375,15 +1377,16 @@ def c5_gives_check(fb, rep):
                     col_ok = colour == 'w'
                 else:
                     col_ok = colour == 'own'
-                rep.ob(clause, 'K10 direction/slider pairing', 'givesCheck: in the %s-direction arm %s of the switch at line %s, %s is compared with a %s %s' % (
-                    cls, sorted(labels, key=str), f.blocks[sw]['term'].get('ln'), x0.get('n'), colour, letter), letter in allowed and col_ok, '%s:%s' % (f.file, t.get('ln')),
+                rep.ob(clause, 'K10 direction/slider pairing', 'givesCheck: in the %s-direction arm %s of direction switch #%d, the %s is compared with a %s %s' % (
+                    cls, sorted(labels, key=str), sw_ord[sw], 'moving piece' if is_call(xdef, 'Piece::makeWhite') else 'piece behind the line', colour, letter),
+                    letter in allowed and col_ok, '%s:%s' % (f.file, t.get('ln')),
                     'allowed pieces %s' % sorted(allowed), f.sname)
     rep.floor(clause, 'slider comparisons inside direction switches', n_cmp, 20)
     for sw, d in sorted(per_switch.items()):
         ln = f.blocks[sw]['term'].get('ln')
         rl = d.get('labels:rook', set())
         bl = d.get('labels:bishop', set())
-        rep.ob(clause, 'K13 exhaustiveness', 'givesCheck: the direction switch at line %s has a rook arm for queen+rook and a bishop arm for queen+bishop covering all four diagonals' % ln,
+        rep.ob(clause, 'K13 exhaustiveness', 'givesCheck: direction switch #%d has a rook arm for queen+rook and a bishop arm for queen+bishop covering all four diagonals' % sw_ord[sw],
                d.get('rook') == {'Q', 'R'} and {'Q', 'B'} <= d.get('bishop', set()) and bl == BISHOP_DIRS and (rl == ROOK_DIRS or rl == {1, -1}),
                '%s:%s' % (f.file, ln), 'rook arm %s labels %s; bishop arm %s labels %s' % (sorted(d.get('rook', [])), sorted(rl), sorted(d.get('bishop', [])), sorted(bl)), f.sname)
     # ---- (c) en-passant row case: both pawns leave the row, so the scans start outside the pawn pair
